@@ -63,7 +63,13 @@ func c08Warm() {
 			}
 			for _, n := range []int{3, 64} {
 				doc := f.build(n, nil)
-				harness.Guard(harness.DefaultDeadline, func() { c08Run(f.format, "decode", doc, cfg); c08Run(f.format, "unmarshal", doc, cfg) })
+				harness.Guard(harness.DefaultDeadline, func() {
+					c08Run(f.format, "decode", doc, cfg)
+					c08Run(f.format, "unmarshal", doc, cfg)
+					if c08Templates[f.name] != nil {
+						c08Run(f.format, "unmarshal-typed:"+f.name, doc, cfg)
+					}
+				})
 			}
 		}
 	})
@@ -275,6 +281,27 @@ var c08Families = func() []c08Family {
 			b.WriteString(">\n" + rep("@r{", n) + "1")
 			return []byte(b.String())
 		}},
+		// maps read into a struct: n keys no field answers to; one field assigned n times
+		{name: "cte-struct-unknown-fields", format: "cte", timing: true, maxN: 1 << 14, build: func(n int, _ []byte) []byte {
+			var b strings.Builder
+			b.WriteString("c0\n{")
+			for i := 0; i < n; i++ {
+				fmt.Fprintf(&b, "\"k%d\"=[1 2] ", i)
+			}
+			b.WriteString("\"a\"=1}")
+			return []byte(b.String())
+		}},
+		{name: "cte-struct-repeated-field", format: "cte", timing: true, maxN: 1 << 14, build: func(n int, _ []byte) []byte {
+			// not valid (duplicate keys): the cost is paid before or while it is rejected
+			return []byte("c0\n{" + rep("\"s\"=[\"x\" \"y\"] ", n) + "}")
+		}},
+		{name: "cbe-struct-unknown-fields", format: "cbe", timing: true, maxN: 1 << 16, build: func(n int, _ []byte) []byte {
+			out := []byte{0x99}
+			for i := 0; i < n; i++ {
+				out = append(out, 0x84, 'k', byte('a'+i%26), byte('a'+(i/26)%26), byte('a'+(i/676)%26), 0x9a, 0x01, 0x9b)
+			}
+			return cbeDoc(out, []byte{0x81, 'a', 0x01, 0x9b})
+		}},
 		{name: "cte-record-many-values", format: "cte", timing: true, maxN: 1 << 14, build: func(n int, _ []byte) []byte {
 			var b strings.Builder
 			b.WriteString("c0\n@r<")
@@ -323,8 +350,43 @@ func c08Config(maxArray int) *configuration.Configuration {
 	return cfg
 }
 
+// typed destinations for the "unmarshal-typed" pipeline (builder side): family name -> template
+type c08Wide struct {
+	A, B, C, D, E, F, G, H int
+	S                      []string
+	M                      map[string]int
+}
+
+var c08Templates = map[string]func() interface{}{
+	"cbe-many-small-ints":       func() interface{} { return []int{} },
+	"cte-many-small-ints":       func() interface{} { return []int16{} },
+	"cbe-many-short-strings":    func() interface{} { return []string{} },
+	"cte-many-strings":          func() interface{} { return []interface{}{} },
+	"cbe-many-map-entries":      func() interface{} { return map[uint32]int8{} },
+	"cte-many-map-entries":      func() interface{} { return map[int]int{} },
+	"cbe-many-empty-lists":      func() interface{} { return [][]int{} },
+	"cbe-big-u8-array":          func() interface{} { return []byte{} },
+	"cbe-long-string":           func() interface{} { return "" },
+	"cte-long-string":           func() interface{} { return "" },
+	"cte-u8x-array":             func() interface{} { return []uint8{} },
+	"cte-f32-array":             func() interface{} { return []float32{} },
+	"cbe-nested-lists":          func() interface{} { return []interface{}{} },
+	"cte-struct-unknown-fields": func() interface{} { return c08Wide{} },
+	"cte-struct-repeated-field": func() interface{} { return c08Wide{} },
+	"cbe-struct-unknown-fields": func() interface{} { return &c08Wide{} },
+}
+
 func c08Run(format, pipeline string, doc []byte, cfg *configuration.Configuration) {
 	defer func() { recover() }() // an escaping panic is C07's business
+	if strings.HasPrefix(pipeline, "unmarshal-typed:") {
+		tmpl := c08Templates[strings.TrimPrefix(pipeline, "unmarshal-typed:")]()
+		if format == "cbe" {
+			ce.UnmarshalFromCBEDocument(doc, tmpl, cfg)
+		} else {
+			ce.UnmarshalFromCTEDocument(doc, tmpl, cfg)
+		}
+		return
+	}
 	if pipeline == "unmarshal" {
 		if format == "cbe" {
 			ce.UnmarshalFromCBEDocument(doc, nil, cfg)
@@ -469,7 +531,10 @@ func genC08(t *rapid.T, ctx *Ctx) interface{} {
 		f = c08Families[0]
 	}
 	c := &C08Case{Family: f.name, MaxArray: rapid.SampledFrom([]int{1 << 10, 64 << 10, 1 << 20}).Draw(t, "maxarray"),
-		Pipeline: rapid.SampledFrom([]string{"decode", "unmarshal"}).Draw(t, "pipeline")}
+		Pipeline: rapid.SampledFrom([]string{"decode", "unmarshal", "unmarshal"}).Draw(t, "pipeline")}
+	if c08Templates[f.name] != nil && rapid.Bool().Draw(t, "typed") {
+		c.Pipeline = "unmarshal-typed:" + f.name
+	}
 	if f.hostile {
 		c.Hostile = rapid.IntRange(0, len(gen.HostileULEB)-1).Draw(t, "hostile")
 		c.N = rapid.SampledFrom([]int{0, 1, 3, 16, 100, 126, 127, 128, 129, 200, 255, 256, 300, 600, 1000, 5000}).Draw(t, "payload")
@@ -504,7 +569,11 @@ func init() {
 				if idx%ctx.Shards != ctx.Shard {
 					continue
 				}
-				for _, pipeline := range []string{"decode", "unmarshal"} {
+				pipelines := []string{"decode", "unmarshal"}
+				if c08Templates[f.name] != nil {
+					pipelines = append(pipelines, "unmarshal-typed:"+f.name)
+				}
+				for _, pipeline := range pipelines {
 					if key := c08KnownFamilies[f.name]; key != "" && harness.Open(key) {
 						ctx.Stats.Exclude(key)
 						continue
